@@ -5,6 +5,7 @@
 import CelloProofs.Lemmas.OwnHist
 set_option linter.unusedVariables false
 set_option linter.unusedSimpArgs false
+set_option linter.unusedTactic false
 namespace Cello.Own
 open List
 
@@ -130,11 +131,140 @@ theorem boxArg_seq {w : World} {c : Nat} {k : SeqKind} {xs : List Tok} (p : Nat)
       · rename_i he; rw [he, hl]
       · rfl
 
+theorem inert_refused {α : Type} (x : α) (e : Exc) : (refused x e).inert x := ⟨rfl, rfl, rfl, rfl⟩
+
+/-- a constructor call (`new(T, …, args)`) with a wrong-typed initial element / key / value -/
+def Op.isTypedCtor : Op → Bool
+  | .typed _ (.newSeq _ _) => true
+  | .typed _ (.newMap _ _) => true
+  | _ => false
+
+/-- a refused constructor: no name is bound, no container changes, and the identities finalised (when the half-built
+    object is reclaimed) are exactly the identities it constructed -/
+def CtorRefused (w : World) (res : World × Obs) : Prop :=
+  ids res.2.retired ~ ids res.2.issued ∧ ∀ e, lookup res.1.objs e = lookup w.objs e
+
+theorem ctorRefused_commit {w : World} {c : Nat} (r : Res Unit) (tl : List Nat) (hnone : lookup w.objs c = none)
+    (hc : Conserves [] [] r.issued r.retired) : CtorRefused w (commit w c false none r tl) := by
+  refine ⟨?_, fun e => ?_⟩
+  · simpa [commit, Conserves] using hc
+  · rw [commit_objs]; simp only [objsAfter, erase_of_lookup_none hnone]
+
 /-- a refused in-contract operation constructs nothing, finalises nothing, assigns nothing and leaves every container
-    as it was -/
-theorem step_refused {w : World} (op : Op) (hin : noKnownFinding w op = true) (hr : (step w op).2.out ≠ .ok) :
-    Untouched w (step w op) ∨ (srcIsBox w op.target = true ∧ BoxArgRefused w (step w op)) := by
+    as it was — except that a refused insertion of a Box argument made (and the caller deleted) the pointee, and a refused
+    constructor finalised again what it had constructed -/
+theorem step_refused {w : World} (hpos : 0 < w.next) (op : Op) (hin : noKnownFinding w op = true)
+    (hr : (step w op).2.out ≠ .ok) :
+    Untouched w (step w op) ∨ (srcIsBox w op.target = true ∧ BoxArgRefused w (step w op)) ∨
+      (op.isTypedCtor = true ∧ CtorRefused w (step w op)) := by
   cases op with
+  | typed c t =>
+    simp only [step] at hr ⊢
+    cases t with
+    | push wk =>
+      simp only [stepTyped] at hr ⊢
+      split at hr
+      · rename_i xs hl; simp [noKnownFinding, typedAtomic, hl] at hin
+      · rename_i xs hl; (try simp only [hl]); exact Or.inl <| untouched_seq _ _ _ hl (fun _ => inert_refused _ _) hr
+      · simp [badOp] at hr
+    | pushAt i wk =>
+      simp only [stepTyped] at hr ⊢
+      split at hr
+      · rename_i xs hl
+        have h1 : arrayPushAtWrong xs i = refused xs .indexOutOfBounds :=
+          arrayPushAtWrong_oob (by simpa [noKnownFinding, typedAtomic, hl] using hin)
+        (try simp only [hl])
+        exact Or.inl <| untouched_seq _ _ _ hl (fun _ => by rw [h1]; exact inert_refused _ _) hr
+      · rename_i xs hl
+        obtain ⟨e, he⟩ := listPushAtWrong_spec xs i
+        (try simp only [hl])
+        exact Or.inl <| untouched_seq _ _ _ hl (fun _ => by rw [he]; exact inert_refused _ _) hr
+      · simp [badOp] at hr
+    | set i wk =>
+      simp only [stepTyped] at hr ⊢
+      split at hr
+      · rename_i k xs hl
+        obtain ⟨e, he⟩ := seqSetWrong_spec xs i
+        (try simp only [hl])
+        exact Or.inl <| untouched_seq _ _ _ hl (fun _ => by rw [he]; exact inert_refused _ _) hr
+      · simp [badOp] at hr
+    | rem wk =>
+      simp only [stepTyped] at hr ⊢
+      split at hr
+      · rename_i k xs hl; (try simp only [hl]); exact Or.inl <| untouched_seq _ _ _ hl (fun _ => inert_refused _ _) hr
+      · simp [badOp] at hr
+    | concat args =>
+      simp only [stepTyped] at hr ⊢
+      split at hr
+      · rename_i xs hl
+        have hg : allGood args = true := by simpa [noKnownFinding, typedAtomic, hl] using hin
+        (try simp only [hl])
+        exact Or.inl <| untouched_seq _ _ _ hl (ok_absurd (cons_arrayConcatArgs_good w.next xs args hg).2.2) hr
+      · rename_i xs hl
+        have hg : allGood args = true ∨ (goodPrefix args).1.isEmpty = true := by
+          simpa [noKnownFinding, typedAtomic, hl] using hin
+        (try simp only [hl])
+        refine Or.inl <| untouched_seq _ _ _ hl (fun hro => ?_) hr
+        rcases hg with hg | hg
+        · exact absurd (listConcatArgs_good_ok w.next xs args hg) hro
+        · rw [listConcatArgs_first_wrong w.next xs args hg hro]; exact inert_refused _ _
+      · simp [badOp] at hr
+    | mset k v =>
+      simp only [stepTyped] at hr ⊢
+      split at hr
+      · rename_i mk kvs hl
+        (try simp only [hl])
+        refine Or.inl <| untouched_map _ _ hl (fun hro => ?_) hr
+        by_cases hg : ∃ a b, k = .pay a ∧ v = .pay b
+        · obtain ⟨a, b, rfl, rfl⟩ := hg
+          exfalso; apply hro
+          rw [mapSetArgs_good]
+          cases mk <;> simp only [mapSet, tableSet, treeSet] <;> split <;> rfl
+        · rw [mapSetArgs_refused hg]; exact inert_refused _ _
+      · simp [badOp] at hr
+    | mrem wk =>
+      simp only [stepTyped] at hr ⊢
+      split at hr
+      · rename_i mk kvs hl; (try simp only [hl]); exact Or.inl <| untouched_map _ _ hl (fun _ => inert_refused _ _) hr
+      · simp [badOp] at hr
+    | newSeq k args =>
+      simp only [stepTyped] at hr ⊢
+      split at hr
+      · simp [badOp] at hr
+      · rename_i hfree
+        have hnone : lookup w.objs c = none := by
+          rcases hl : lookup w.objs c with _ | x
+          · rfl
+          · exfalso; apply hfree; right; simp [hl]
+        split at hr
+        · simp [commitSeq, commit, Res.unit] at hr
+        · rename_i hng
+          cases k with
+          | array => simp [noKnownFinding, typedAtomic, hng] at hin
+          | list =>
+            simp only [hfree, hng, if_false]
+            exact Or.inr <| Or.inr ⟨rfl, ctorRefused_commit _ _ hnone (cons_listNewRefused w.next args).1⟩
+    | newMap k args =>
+      simp only [stepTyped] at hr ⊢
+      split at hr
+      · simp [badOp] at hr
+      · rename_i hfree
+        have hnone : lookup w.objs c = none := by
+          rcases hl : lookup w.objs c with _ | x
+          · rfl
+          · exfalso; apply hfree; right; simp [hl]
+        split at hr
+        · exfalso; apply hr
+          simp only [commitMap, commit, Res.unit]
+          generalize w.next = n
+          generalize ([] : List KV) = acc
+          generalize (goodPairs args).1 = kvs
+          induction kvs generalizing n acc with
+          | nil => rfl
+          | cons kv kvs ih => obtain ⟨a, b⟩ := kv; simp only [mapSetMany]
+        · rename_i hng
+          simp only [hfree, hng, if_false]
+          exact Or.inr <| Or.inr ⟨rfl, ctorRefused_commit _ _ hnone (cons_mapNewRefused k w.next args hpos).1⟩
   | new c k => simp only [step] at hr ⊢; split at hr <;> simp [badOp, commit] at hr
   | newSeq c k ps => simp only [step] at hr ⊢; split at hr <;> simp [badOp, commitSeq, commit, Res.unit] at hr
   | newMap c k kvs =>
@@ -161,9 +291,9 @@ theorem step_refused {w : World} (op : Op) (hin : noKnownFinding w op = true) (h
     · rename_i xs hl; (try simp only [hl]); exact Or.inl <| untouched_seq _ _ _ hl (inert_arrayPushAt _ _ _ _) hr
     · rename_i xs hl; (try simp only [hl]); exact Or.inl <| untouched_seq _ _ _ hl (inert_listPushAt _ _ _ _) hr
     · rename_i xs hl
-      exact Or.inr ⟨by simp [srcIsBox, Op.target, hl, Cont.isBox], boxArg_seq p _ _ hl (inert_arrayPushAtTok _ _ _) hr⟩
+      exact Or.inr <| Or.inl ⟨by simp [srcIsBox, Op.target, hl, Cont.isBox], boxArg_seq p _ _ hl (inert_arrayPushAtTok _ _ _) hr⟩
     · rename_i xs hl
-      exact Or.inr ⟨by simp [srcIsBox, Op.target, hl, Cont.isBox], boxArg_seq p _ _ hl (inert_listPushAtTok _ _ _) hr⟩
+      exact Or.inr <| Or.inl ⟨by simp [srcIsBox, Op.target, hl, Cont.isBox], boxArg_seq p _ _ hl (inert_listPushAtTok _ _ _) hr⟩
     · simp [badOp] at hr
   | pop c =>
     simp only [step] at hr ⊢
@@ -242,5 +372,193 @@ theorem step_refused {w : World} (op : Op) (hin : noKnownFinding w op = true) (h
   | bassign c d => simp [noKnownFinding] at hin
   | bref c p => simp [noKnownFinding] at hin
   | read c => simp only [step] at hr ⊢; split at hr <;> simp [badOp, commit] at hr
+
+/-! ### calls with a wrong-typed argument are never accepted -/
+
+/-- the call carries a wrong-typed element / key / value -/
+def TCall.hasWrong : TCall → Bool
+  | .push _ => true | .pushAt _ _ => true | .set _ _ => true | .rem _ => true | .mrem _ => true
+  | .concat args => !allGood args
+  | .mset (.pay _) (.pay _) => false
+  | .mset _ _ => true
+  | .newSeq _ args => !allGood args
+  | .newMap _ args => !(goodPairs args).2
+
+def TCall.isCtor : TCall → Bool
+  | .newSeq _ _ => true
+  | .newMap _ _ => true
+  | _ => false
+
+theorem commitSeq_out (w : World) (c : Nat) (k : SeqKind) (ek : ElemKind) (r : Res (List Tok)) (tl : List Nat) (wb : Bool) :
+    (commitSeq w c k ek r tl wb).2.out = r.out := rfl
+theorem commitMap_out (w : World) (c : Nat) (k : MapKind) (r : Res (List KV)) (tl : List Nat) :
+    (commitMap w c k r tl).2.out = r.out := rfl
+theorem commit_out (w : World) (c : Nat) (b : Bool) (cont : Option Cont) (r : Res Unit) (tl : List Nat) :
+    (commit w c b cont r tl).2.out = r.out := rfl
+
+/-- an executed call with a wrong-typed argument raises — whatever the receiver holds, in or out of the atomic territory -/
+theorem typed_wrong_refused {w : World} {c : Nat} {t : TCall} (hw : t.hasWrong = true)
+    (hb : (step w (.typed c t)).2.bad = false) : (step w (.typed c t)).2.out ≠ .ok := by
+  simp only [step] at hb ⊢
+  cases t with
+  | push wk => simp only [stepTyped] at hb ⊢; split <;> simp_all [commitSeq_out, arrayPushWrong, listPushWrong, refused, badOp]
+  | pushAt i wk =>
+    simp only [stepTyped] at hb ⊢
+    split
+    · rw [commitSeq_out]
+      simp only [arrayPushAtWrong]
+      generalize (if i < 0 then ((_ : List Tok).length : Int) + 1 + i else i) = j
+      split <;> simp [refused]
+    · rw [commitSeq_out]
+      obtain ⟨e, he⟩ := listPushAtWrong_spec ‹_› i
+      rw [he]; simp [refused]
+    · simp [badOp] at hb
+  | set i wk =>
+    simp only [stepTyped] at hb ⊢
+    split
+    · rw [commitSeq_out]
+      obtain ⟨e, he⟩ := seqSetWrong_spec ‹_› i
+      rw [he]; simp [refused]
+    · simp [badOp] at hb
+  | rem wk => simp only [stepTyped] at hb ⊢; split <;> simp_all [commitSeq_out, seqRemWrong, refused, badOp]
+  | mrem wk => simp only [stepTyped] at hb ⊢; split <;> simp_all [commitMap_out, mapRemWrong, refused, badOp]
+  | concat args =>
+    have hs : ∃ n, (goodPrefix args).2 = some n := by
+      simp only [TCall.hasWrong, allGood, Bool.not_eq_true', Option.isNone_eq_false_iff] at hw
+      exact Option.isSome_iff_exists.mp hw
+    obtain ⟨n, hn⟩ := hs
+    simp only [stepTyped] at hb ⊢
+    split
+    · rw [commitSeq_out]; simp [arrayConcatArgs, hn]
+    · rw [commitSeq_out]; simp [listConcatArgs, hn]
+    · simp [badOp] at hb
+  | mset k v =>
+    simp only [stepTyped] at hb ⊢
+    split
+    · rw [commitMap_out]
+      have hg : ¬ ∃ a b, k = .pay a ∧ v = .pay b := by
+        rintro ⟨a, b, rfl, rfl⟩; simp [TCall.hasWrong] at hw
+      rw [mapSetArgs_refused hg]; simp [refused]
+    · simp [badOp] at hb
+  | newSeq k args =>
+    have hg : allGood args = false := by simpa [TCall.hasWrong] using hw
+    simp only [stepTyped, hg] at hb ⊢
+    split
+    · simp_all [badOp]
+    · cases k <;> simp [commit_out, listNewRefused, arrayNewRefused]
+  | newMap k args =>
+    have hg : (goodPairs args).2 = false := by simpa [TCall.hasWrong] using hw
+    simp only [stepTyped, hg] at hb ⊢
+    split
+    · simp_all [badOp]
+    · simp [commit_out, mapNewRefused]
+
+/-- …and its receiver is not a container of Box (those take any object: the typed calls are not applicable, `bad`) -/
+theorem typed_not_box {w : World} {c : Nat} {t : TCall} (hb : (step w (.typed c t)).2.bad = false) :
+    ¬ srcIsBox w (Op.typed c t).target = true := by
+  simp only [step] at hb
+  simp only [Op.target, srcIsBox]
+  cases t <;> simp only [stepTyped] at hb <;> split at hb <;>
+    first
+      | (simp [badOp] at hb; done)
+      | (rename_i hl; simp [hl, Cont.isBox]; done)
+      | (rename_i hfree
+         have hnone : lookup w.objs c = none := by
+           rcases hl : lookup w.objs c with _ | x
+           · rfl
+           · exfalso; apply hfree; right; simp [hl]
+         simp [hnone])
+
+end Cello.Own
+
+namespace Cello.Own
+open List
+
+/-! ### the non-atomic territory is exact: outside `typedAtomic` a type-refused call does leave something behind -/
+
+/-- "nothing happened" for an executed call with a wrong-typed argument: every container is the value it was, and either
+    nothing was constructed or finalised, or (a constructor) the finalised identities are exactly the constructed ones -/
+def TypedNoEffect (w : World) (t : TCall) (res : World × Obs) : Prop :=
+  (∀ e, lookup res.1.objs e = lookup w.objs e) ∧
+  ((res.2.issued = [] ∧ res.2.retired = []) ∨ (t.isCtor = true ∧ ids res.2.retired ~ ids res.2.issued))
+
+theorem commitSeq_lookup_self (w : World) (c : Nat) (k : SeqKind) (ek : ElemKind) (r : Res (List Tok)) (tl : List Nat) (wb : Bool) :
+    lookup (commitSeq w c k ek r tl wb).1.objs c = some (.seq k ek r.val) := by
+  simp only [commitSeq, commit_objs]; exact lookup_objsAfter_self _ _ _
+
+theorem seq_changed {w : World} {c : Nat} {k : SeqKind} {ek : ElemKind} {xs : List Tok} {r : Res (List Tok)} {tl : List Nat}
+    {wb : Bool} (hl : lookup w.objs c = some (.seq k ek xs)) (hlen : r.val.length ≠ xs.length) :
+    ¬ ∀ e, lookup (commitSeq w c k ek r tl wb).1.objs e = lookup w.objs e := by
+  intro h
+  have := h c
+  rw [commitSeq_lookup_self, hl] at this
+  simp only [Option.some.injEq, Cont.seq.injEq, true_and] at this
+  exact hlen (by rw [this])
+
+/-- outside `typedAtomic`, an executed call with a wrong-typed argument changes its receiver, or constructs elements it
+    does not finalise again although it is refused, or runs destructors on records it never constructed -/
+theorem typed_not_atomic_effect {w : World} {c : Nat} {t : TCall} (hw : t.hasWrong = true)
+    (hb : (step w (.typed c t)).2.bad = false) (hat : typedAtomic w c t = false) :
+    ¬ TypedNoEffect w t (step w (.typed c t)) := by
+  simp only [step] at hb ⊢
+  cases t with
+  | push wk =>
+    simp only [stepTyped] at hb ⊢
+    split
+    · rename_i xs hl
+      exact fun h => seq_changed hl (by simp [arrayPushWrong]) h.1
+    · rename_i xs hl; simp [typedAtomic, hl] at hat
+    · simp [badOp] at hb
+  | pushAt i wk =>
+    simp only [stepTyped] at hb ⊢
+    split
+    · rename_i xs hl
+      refine fun h => seq_changed hl ?_ h.1
+      simp only [typedAtomic, hl] at hat
+      simp only [arrayPushAtWrong] at hat ⊢
+      generalize (if i < 0 then (xs.length : Int) + 1 + i else i) = j at hat ⊢
+      by_cases hbd : j < 0 ∨ j > (xs.length : Int)
+      · simp [hbd, refused] at hat
+      · simp only [hbd, if_false]
+        have : j.toNat ≤ xs.length := by omega
+        simp [List.length_insertIdx, this]
+    · rename_i xs hl; simp [typedAtomic, hl] at hat
+    · simp [badOp] at hb
+  | set i wk => simp [typedAtomic] at hat
+  | rem wk => simp [typedAtomic] at hat
+  | mrem wk => simp [typedAtomic] at hat
+  | mset k v => simp [typedAtomic] at hat
+  | newMap k args => simp [typedAtomic] at hat
+  | concat args =>
+    have hs : ∃ n, (goodPrefix args).2 = some n := by
+      simp only [TCall.hasWrong, allGood, Bool.not_eq_true', Option.isNone_eq_false_iff] at hw
+      exact Option.isSome_iff_exists.mp hw
+    obtain ⟨n, hn⟩ := hs
+    simp only [stepTyped] at hb ⊢
+    split
+    · rename_i xs hl
+      exact fun h => seq_changed hl (by simp [arrayConcatArgs, hn]) h.1
+    · rename_i xs hl
+      have hne : (goodPrefix args).1 ≠ [] := by
+        simp only [typedAtomic, hl, Bool.or_eq_false_iff] at hat
+        intro he; simp [he] at hat
+      refine fun h => seq_changed hl ?_ h.1
+      simp only [listConcatArgs, hn, List.length_append, length_mkFresh]
+      have : 0 < (goodPrefix args).1.length := List.length_pos_iff.mpr hne
+      omega
+    · simp [badOp] at hb
+  | newSeq k args =>
+    have hg : allGood args = false := by simpa [TCall.hasWrong] using hw
+    cases k with
+    | list => simp [typedAtomic] at hat
+    | array =>
+      simp only [stepTyped, hg] at hb ⊢
+      split
+      · simp_all [badOp]
+      · rintro ⟨_, h | ⟨_, h⟩⟩
+        · have := h.2
+          simp [commit, arrayNewRefused] at this
+        · have := h.length_eq
+          simp [commit, arrayNewRefused, ids] at this
 
 end Cello.Own
